@@ -96,6 +96,9 @@ def v3_tail_item(rng, delay):
     it["inner"] = [{"op": "raw", "name": "scoped-pdu", "hex": tail}]
     if rng.random() < 0.3:
         it["rewrite"]["flags"] = rng.choice([0, 1, 2, 3, 4, 5, 7, 0xFF])
+    if rng.random() < 0.35:
+        # a correctly signed reply whose ciphertext lost its last octets
+        it = {"k": "genuine", "delay_ns": delay, "rewrite": {"cipher-trim": rng.randint(1, 9)}}
     return it
 
 
@@ -144,10 +147,10 @@ class C01(Prop):
     thorough_runs = 600000
 
     def families(self, tier):
-        return [("corrupt", 6), ("directed", 4), ("sockerr", 1), ("raw-only", 1)]
+        return [("corrupt", 6), ("directed", 4), ("sockerr", 1), ("raw-only", 1), ("late-stray", 1)]
 
     def expected_counters(self, tier):
-        return ["fault.raw", "fault.cut-at-tlv", "fault.outer.truncate", "fault.outer.byteset", "fault.outer.bitflip", "fault.inner.del", "fault.inner.dup", "fault.inner.swap_tag", "fault.inner.len", "fault.rewrite.salt", "agent.custom", "fault.recv-errno", "probe.poison-differential"]
+        return ["fault.raw", "fault.cut-at-tlv", "fault.outer.truncate", "fault.outer.byteset", "fault.outer.bitflip", "fault.inner.del", "fault.inner.dup", "fault.inner.swap_tag", "fault.inner.len", "fault.rewrite.salt", "agent.custom", "fault.recv-errno", "probe.poison-differential", "fault.rewrite.cipher-trim", "fault.slow-client"]
 
     def gen(self, rng, family, tier):
         cfgname = rng.choice(CONFIGS)
@@ -170,6 +173,26 @@ class C01(Prop):
         kinds = ["get", "get_many", "getnext", "getbulk"] + (["refresh"] if sess["version"] == "v3" else [])
         if sess["version"] == "v1":
             kinds.remove("getbulk")
+        if family == "late-stray":
+            # sync client, well-formed but unwanted datagrams around and just after the deadline,
+            # optionally a slow client (virtual processing time per received datagram)
+            flavour = "sync"
+            T = rng.choice([50_000_000, 150_000_000, 333_000_000])
+            sess["timeout_ns"] = T
+            recv_cost = rng.choice([0, 0, 1_001, 500_001, 3_000_001, 60_000_001])
+            for opid in range(1, rng.randint(2, 4)):
+                ops.append({"id": opid, "s": 0, "op": "get", "oid": rng.choice([r[0] for r in rows])})
+                items = []
+                t = 0
+                for _ in range(rng.randint(1, 6)):
+                    t += rng.randrange(T // 10, T // 2) | 1
+                    if t > T:
+                        break
+                    items.append({"k": "genuine", "delay_ns": t, "rewrite": {"request-id": rng.choice(["xor1", "plus1", "zero"])}})
+                for _ in range(rng.randint(1, 3)):
+                    items.append({"k": "genuine", "delay_ns": T + rng.choice([-1_001, 1_001, 200_001, 900_001, 2_000_001, 3_500_001, 9_000_001]), "rewrite": {"request-id": "xor1"}})
+                scripts["%d:1" % opid] = {"replies": items}
+            return {"flavour": flavour, "agent": agent, "sessions": [sess], "ops": ops, "scripts": scripts, "send_errors": {}, "latency_ns": lat, "poison": 0xA5, "differential": False, "recv_cost_ns": recv_cost}
         for _ in range(rng.randint(1, 3)):
             opid += 1
             k = rng.choice(kinds)
@@ -223,6 +246,14 @@ class C01(Prop):
         out = []
         for res in run.results:
             out += totality(res, "C01", run.sim)
+            # a reply whose ciphertext was cut short cannot be a whole scoped PDU: if a value comes
+            # back for it, octets outside the received datagram were decoded
+            if res["op"]["op"] in ("get", "get_many") and "ok" in res:
+                exs = run.exchanges(res)
+                if exs and exs[-1]["rx"]:
+                    last = run.dgrams[exs[-1]["rx"][-1]]["label"]
+                    if last.get("cipher_trimmed"):
+                        out.append(V("C01.reads-outside-received-bytes", "%s returned %r for a reply whose ciphertext was cut by %d octet(s)" % (res["op"]["op"], res["ok"], last["cipher_trimmed"]), trim=last["cipher_trimmed"]))
         if run.alt is not None:
             a = [(r.get("ok"), r.get("exc", {}).get("exc")) for r in run.results]
             b = [(r.get("ok"), r.get("exc", {}).get("exc")) for r in run.alt.results]
